@@ -75,8 +75,15 @@ func ScaleProfiles(profiles []*profile.Profile) error {
 			ratios[i], _ = Scale(1, st.Unit, sampleType[i].Unit)
 			p.SampleType[i].Unit = sampleType[i].Unit
 		}
-		if err := p.ScaleN(ratios); err != nil {
-			return fmt.Errorf("scale: %v", err)
+		// Scale in place rather than through Profile.ScaleN, which drops
+		// samples based on the scaled columns only. Samples that are zero in
+		// every column are removed by the merge that follows.
+		for _, s := range p.Sample {
+			for i, v := range s.Value {
+				if ratios[i] != 1 {
+					s.Value[i] = int64(math.Round(float64(v) * ratios[i]))
+				}
+			}
 		}
 	}
 	return nil
